@@ -405,6 +405,7 @@ pub fn check_main(a: CheckArgs) -> i32 {
     let mut nontrivial_runs = 0u64;
     let mut audits = 0u64;
     let mut audit_mismatch = 0u64;
+    let mut audit_soft = 0u64;
     let mut minimise_execs = 0u64;
     let mut violations_total = 0u64;
     let mut dims: BTreeMap<String, u64> = BTreeMap::new();
@@ -430,6 +431,7 @@ pub fn check_main(a: CheckArgs) -> i32 {
         nontrivial_runs += d["nontrivial_runs"].as_u64().unwrap_or(0);
         audits += d["audits"].as_u64().unwrap_or(0);
         audit_mismatch += d["audit_mismatch"].as_u64().unwrap_or(0);
+        audit_soft += d["audit_soft"].as_u64().unwrap_or(0);
         minimise_execs += d["minimise_execs"].as_u64().unwrap_or(0);
         violations_total += d["violations_total"].as_u64().unwrap_or(0);
         skipped_after_deaths += d["skipped_after_deaths"].as_u64().unwrap_or(0);
@@ -567,10 +569,11 @@ pub fn check_main(a: CheckArgs) -> i32 {
                 },
                 "crash_point_enumeration": {"runs": runs.get("crash"), "exhaustive": a.thorough && a.strata.iter().any(|s| s == "crash"),
                     "note": "thorough: every step of every workload task that takes fewer than 1000 steps alone (all but the few hundred variants of the dag-*/chain-* modules, for which the first two and the last occurrence of every site are used), every option set, with and without comments; quick: first two and last occurrence of every site, the module's own option set (plus all-on for the repository's fixtures and workload/state) with comments. `exhaustive` refers to that sub-space: one crash, at any such step, followed by the same task and a bystander on the same worker"},
-                "self_audit": {"runs_executed_twice": audits, "event_log_mismatches": audit_mismatch},
+                "self_audit": {"runs_executed_twice": audits, "event_log_mismatches": audit_mismatch, "mismatches_in_runs_where_a_task_blocked_on_a_real_lock_of_a_parked_task (timing-dependent by design, not an error)": audit_soft},
                 "minimiser_executions": minimise_execs,
                 "violations_before_dedup": violations_total,
                 "known_findings_hit": known_hits.len(),
+                "sync_instrumentation": if std::env::var("VERIF_SYNC_INSTRUMENTED").as_deref() == Ok("1") { "the code under test uses std::sync and was built from an instrumented copy: every Mutex/RwLock acquisition, OnceLock/LazyLock access and atomic operation of visitor/src and plugin/src is a yield point (sim/verif-sync)" } else { "not needed: the code under test does not use std::sync (or the instrumented copy did not build)" },
                 "plugin_entry": if crate::pipeline::PLUGIN_ENTRY_COMPILED { "real code: /repo/plugin/src/lib.rs, compiled natively against a shim of swc_core::plugin (attribute macro, metadata and comments proxies are plain values filled in by the simulated host); every run whose host deserialises the configuration per file goes through it" } else { "stub: /repo/plugin/src/lib.rs did not compile against the native shim in this run; its two statements (config string -> Options -> one pass) are re-expressed natively" },
                 "real_code": ["swc-vue-jsx-visitor (whole crate, /repo working tree, feature verif-hooks)", "Options deserialisation (serde_json::from_str::<Options>)", "swc_ecma_parser", "swc_ecma_transforms_base::resolver", "swc_ecma_codegen", "swc_common::{Globals, SourceMap, SingleThreadedComments, Handler}", "std RandomState", "hstr atom store"],
                 "stubbed": ["host thread pool + scheduler (the simulator)", "shared comments store (Mutex<BTreeMap> implementation of the Comments trait)", "diagnostics Emitter", "getrandom (seed-derived)", "swc_core::plugin (the #[plugin_transform] macro and the host-call proxies TransformPluginProgramMetadata / PluginCommentsProxy): native stand-ins, the WASM export and its host imports cannot run here"],
